@@ -363,8 +363,56 @@ fn read_form_cases() -> Vec<(Case, Want)> {
             }
         }
     }
+    // a binding declared in an inner block of the lambda body under the NAME of a captured variable: it is a fresh local of
+    // that invocation, and once its block ends the lambda sees the captured value again (in both calls)
+    for root_fn in [true, false] {
+        for depth in [1usize, 2] {
+            for (i, (fname, form, semits)) in SHADOW_FORMS.iter().enumerate() {
+                let x = if root_fn { "v0" } else { "gv" };
+                let sh = form.replace('X', x);
+                let lam = if depth == 1 {
+                    format!("(p1: int) -> {{\n{sh}\nvh_emit_int({x})\np1 * 2\n}}")
+                } else {
+                    format!("(p1: int) -> {{\nvh_emit_int({x})\nlet f2 = (p2: int) -> {{\n{sh}\nvh_emit_int({x})\np2 * 2\n}}\nf2(p1)\n}}")
+                };
+                let stmts = format!(
+                    "var {x} = 10\n{x} = {x} + 1\nlet f1 = {lam}\n{x} = {x} + 2\nvh_emit_int(f1(11))\n{x} = {x} + 4\nvh_emit_int(f1(12))\nvh_emit_int({x})"
+                );
+                let mut want = vec![];
+                for res in [22, 24] {
+                    if depth == 2 {
+                        want.push(11);
+                    }
+                    want.extend_from_slice(semits);
+                    want.push(11);
+                    want.push(res);
+                }
+                want.push(17);
+                let name = format!(
+                    "C19 inner-block binding named like the capture: {fname} root={} lambda-depth={depth}",
+                    if root_fn { "function" } else { "top-level" }
+                );
+                let case = if root_fn {
+                    let f = format!("rootsh_{depth}_{i}");
+                    Case::new(name, format!("{f}(5)")).decl(format!("fn {f}(p0: int) -> void {{\n{stmts}\n}}"))
+                } else {
+                    Case::new(name, "").decl(stmts)
+                };
+                v.push((case, Want::Emits(want)));
+            }
+        }
+    }
     v
 }
+
+/// (name, statements with X = the captured variable, what they emit when the captured value is 11)
+const SHADOW_FORMS: [(&str, &str, &[i64]); 5] = [
+    ("if-block let", "if p1 > 0 {\nlet X = 500\nvh_emit_int(X)\n}", &[500]),
+    ("while-body let from itself", "var wi = 0\nwhile wi < 2 {\nlet X = X * 2\nvh_emit_int(X)\nwi = wi + 1\n}", &[22, 22]),
+    ("match-arm binding", "match option.some(700) {\n.some(X) -> vh_emit_int(X)\n.none -> vh_emit_int(0)\n}", &[700]),
+    ("for variable", "for X in [800, 801] {\nvh_emit_int(X)\n}", &[800, 801]),
+    ("if-block var assigned", "if p1 > 0 {\nvar X = 900\nX = X + 1\nvh_emit_int(X)\n}", &[901]),
+];
 
 impl Prop for C19 {
     fn id(&self) -> &'static str {
@@ -378,7 +426,7 @@ impl Prop for C19 {
     }
     fn expected_evaluations(&self, tier: Tier) -> Option<u64> {
         let d = tier.pick(2, 3);
-        Some(universe_closed_form(true, d) + universe_closed_form(false, d) + 2 * 2 * READ_FORMS.len() as u64)
+        Some(universe_closed_form(true, d) + universe_closed_form(false, d) + 2 * 2 * (READ_FORMS.len() + SHADOW_FORMS.len()) as u64)
     }
     fn run_unit(&self, tier: Tier, unit: usize, out: &mut UnitOut) {
         let (st, c) = layout(tier)[unit];
@@ -423,7 +471,9 @@ impl Prop for C19 {
              a call runs on the snapshot with fresh parameter/locals. Count = closed form 1 + Σ_x n_x·w_x + Σ_(x<y) n_x·n_y·w_xy with n_x = 2^(d-level(x))-1, w = 8 if a var is active else 1. \
              non-trivial = at least one captured variable. Shapes where some level between declaration and reader does not itself read the variable are a separate stratum, one program per case. \
              Extra stratum: a var captured by a lambda (depth 1, and depth 2 with the outer lambda also reading it) whose only read inside the lambda has each of 12 syntactic forms \
-             (call argument, operand, let/assignment rhs, match scrutinee, while/if condition, array/tuple element, for iterable, nested block)",
+             (call argument, operand, let/assignment rhs, match scrutinee, while/if condition, array/tuple element, for iterable, nested block); and the same 2x2 settings with a binding declared \
+             in an inner block of the lambda body under the captured variable's own name (if-block let/var, while-body let initialised from itself, match-arm binding, for variable), \
+             the capture read again after the block",
         )
     }
     fn assumptions(&self) -> Vec<String> {
